@@ -92,6 +92,12 @@ def tree_digest(subdirs=('athlib',), exts=('.py', '.json')):
     return h.hexdigest()[:16]
 
 
+def run_digest_term(index, obj):
+    """Order-independent accumulation of per-run digests: sum these modulo 2**64 over all runs."""
+    h = hashlib.sha256(('%s|' % (index,)).encode() + json.dumps(obj, sort_keys=True, default=str).encode()).hexdigest()
+    return int(h[:16], 16)
+
+
 def digest_of(obj):
     return hashlib.sha256(json.dumps(obj, sort_keys=True, default=str).encode()).hexdigest()[:16]
 
